@@ -24,6 +24,8 @@ var c16Queries = []c16Q{
 	{`{ a: __schema { queryType { name } } me { id } }`, []string{"a"}, nil},
 	{`query($v: Boolean!) { ...F @include(if: $v) me { id } } fragment F on Query { t: __type(name: "User") { name fields { name args { name } } } }`, []string{"t"}, []string{"v"}},
 	{`{ ... on Query { x: __type(name: "Item") { kind name } y: __schema { directives { name } } } }`, []string{"x", "y"}, nil},
+	// names that are not types of the schema (keys starting with "u"): enabled they are null without an error, disabled they are refused like every other name
+	{`query($n: String!) { u1: __type(name: "Nope") { name } u2: __type(name: "user") { name } u3: __type(name: $n) { kind } t: __type(name: "User") { name } }`, []string{"u1", "u2", "u3", "t"}, nil},
 }
 
 var c16Docs []*ast.QueryDocument
@@ -42,7 +44,7 @@ func Setup_C16_disabled() {
 func Harness_C16_disabled() {
 	qi := zzsym.Choice("query", len(c16Queries))
 	q := c16Queries[qi]
-	vars := map[string]any{}
+	vars := map[string]any{"n": []string{"Secret", "", "__Nope"}[zzsym.Choice("unknownName", 3)]}
 	for _, f := range q.flags {
 		vars[f] = zzsym.Bool(f)
 	}
@@ -57,7 +59,9 @@ func Harness_C16_disabled() {
 		if !present {
 			continue // excluded by @include(if: false)
 		}
-		if w.introspection {
+		if w.introspection && strings.HasPrefix(k, "u") {
+			zzsym.Assert(v == nil && len(got.errs) == 0, "enabled: a name that is not a type is null, without an error")
+		} else if w.introspection {
 			zzsym.Assert(v != nil, "enabled: the introspection field answers")
 			zzsym.Reach("c16.enabled")
 		} else {
